@@ -304,10 +304,21 @@ class SimPool:
 
 _PATCHED: list = []
 
+# every module of the discretizers and carvers packages: today only base_discretizers (nan_unique
+# excluded), base_carver and discretizers iterate over a set of feature names, but a set iterated
+# anywhere else must come under the scheduler too
 SET_MODULES = (
     "AutoCarver.discretizers.utils.base_discretizers",
     "AutoCarver.carvers.base_carver",
     "AutoCarver.discretizers.discretizers",
+    "AutoCarver.discretizers.utils.grouped_list",
+    "AutoCarver.discretizers.utils.qualitative_discretizers",
+    "AutoCarver.discretizers.utils.quantitative_discretizers",
+    "AutoCarver.discretizers.utils.type_discretizers",
+    "AutoCarver.discretizers.utils.serialization",
+    "AutoCarver.carvers.binary_carver",
+    "AutoCarver.carvers.continuous_carver",
+    "AutoCarver.carvers.multiclass_carver",
 )
 POOL_MODULES = (
     "AutoCarver.discretizers.utils.base_discretizers",
